@@ -725,4 +725,69 @@ theorem inv_branch (D : Dom c) (S : StepCtx c init level' e path ins0 clos brs b
 
 end clauses
 
+/-! ### the closing entry `(start, …)` is popped -/
+
+theorem M_pop_perm (level' : Level) (e : Entry) (path : Path) :
+    (M level' (path ++ [pe e])).Perm (M (level' ++ [e]) path) := by
+  simp only [M, List.map_append, List.map_cons, List.map_nil, List.append_assoc]
+  exact List.Perm.append_left _ List.perm_append_comm
+
+theorem inv_start {c : Ctx} {init : PEntry} {level' : Level} {e : Entry} {path : Path}
+    (I : Inv c init (level' ++ [e]) path) (hi : init.2.1 = c.start) (hs : e.atom = c.start) :
+    Inv c init level' (path ++ [pe e]) := by
+  have hP := M_pop_perm level' e path
+  have hmem : ∀ x, x ∈ M level' (path ++ [pe e]) ↔ x ∈ M (level' ++ [e]) path := fun x => hP.mem_iff
+  have hV : ∀ v, v ≠ c.start → (hashedIn (path ++ [pe e]) v = true ↔ hashedIn path v = true) := by
+    intro v hv
+    rw [hashedIn_append, Bool.or_eq_true]
+    have : hashedIn [pe e] v = false := by
+      simp only [hashedIn, List.any_cons, List.any_nil, Bool.or_false, pe, beq_eq_false_iff_ne, ne_eq]
+      exact fun h => hv (h ▸ hs)
+    rw [this]; simp
+  have hmono : ∀ v, hashedIn path v = true → hashedIn (path ++ [pe e]) v = true := by
+    intro v h; rw [hashedIn_append, h]; rfl
+  have hlv' : path = [] → level' = [] := by
+    intro h0
+    have := congrArg List.length (I.fresh h0)
+    simp only [List.map_append, List.length_append, List.length_map, List.length_cons, List.length_nil] at this
+    exact List.eq_nil_of_length_eq_zero (by omega)
+  refine ⟨?_, ?_, ?_, ?_, ?_, ?_, ?_, ?_, ?_, ?_⟩
+  · intro x hx; exact I.edges x ((hmem x).1 hx)
+  · exact ((hP.map key).nodup_iff).2 I.nodup
+  · intro v hv hvs w hw
+    exact (hP.map key).symm.subset (I.cover v ((hV v hvs).1 hv) hvs w hw)
+  · intro v hv hvs
+    rw [dbl_perm hP]
+    exact I.alt v ((hV v hvs).1 hv) hvs
+  · intro e' he'
+    obtain ⟨l1, l2, l3⟩ := I.lvl e' (List.mem_append_left _ he')
+    refine ⟨?_, ?_, l3⟩
+    · rcases l1 with l1 | l1
+      · by_cases h : e'.atom = c.start
+        · exact Or.inr h
+        · left
+          cases hh : hashedIn (path ++ [pe e]) e'.atom
+          · rfl
+          · rw [(hV _ h).1 hh] at l1; exact Bool.noConfusion l1
+      · exact Or.inr l1
+    · rcases l2 with ⟨l2, l2'⟩ | l2
+      · exact Or.inl ⟨hmono _ l2, l2'⟩
+      · rw [hlv' l2] at he'; exact absurd he' List.not_mem_nil
+  · intro x hx
+    rcases List.mem_append.1 hx with h | h
+    · exact (I.pth x h).imp (hmono _) id
+    · simp only [List.mem_singleton] at h
+      subst h
+      rcases (I.lvl e (by simp)).2.1 with ⟨l2, -⟩ | l2
+      · exact Or.inl (hmono _ l2)
+      · have := I.fresh l2
+        simp only [List.map_append, List.map_cons, List.map_nil] at this
+        have h1 : pe e ∈ level'.map pe ++ [pe e] := by simp
+        rw [this, List.mem_singleton] at h1
+        exact Or.inr (h1 ▸ hi)
+  · intro x hx; exact I.st1 x ((hmem x).1 hx)
+  · intro x hx; exact I.st2 x ((hmem x).1 hx)
+  · exact (hmem _).2 I.ini
+  · intro h; simp at h
+
 end ChythonModel.Proofs.C05S
